@@ -14,6 +14,8 @@ from harness.core import esc
 
 NONE = "~"
 CONDS = ["eq", "ne", "cs", "hs", "cc", "lo", "mi", "pl", "vs", "vc", "hi", "ls", "ge", "lt", "gt", "le", "al"]
+# the shift / extend operators of the grammar and their leading words (`mul` of `mul vl`)
+SHIFT_OPS = ["lsl", "lsr", "asr", "ror", "sxtw", "sxtx", "uxtw", "uxtb", "mul vl"]
 SHIFT_WORDS = ["lsl", "lsr", "asr", "ror", "sxtw", "uxtw", "uxtb", "sxtx", "mul"]
 PRF = (["pld", "pst"], ["l1", "l2", "l3"], ["keep", "strm"])
 SCALAR = "xwbhsdq"
@@ -152,8 +154,9 @@ _ID_REST = _ID_FIRST + "0123456789"
 
 def ident_ok(name):
     """names the property's domain admits as label operands: not spelled like a register, an alias,
-    a condition code, a prefetch operation or a shift/extend operator (the grammar would read the
-    latter as the shift of the preceding operand)"""
+    a condition code or a prefetch operation, and not a shift/extend operator itself (`lsl` behind a
+    register is that register's shift).  A name that merely *begins* with a shift operator (`lsl_loop`,
+    `ror.tab`, `sxtw1`, `mul_vl`) is a label like any other."""
     import re
     low = name.lower()
     if low in CONDS:
@@ -162,17 +165,42 @@ def ident_ok(name):
         return False
     if low[:2] in ("sp", "zr") or low[1:3] in ("sp", "zr"):
         return False
-    if any(low.startswith(w) for w in SHIFT_WORDS):
+    if low in SHIFT_OPS:
         return False
     if re.match(r"^(pld|pst)l[123](keep|strm)", low):
         return False
     return True
 
 
+_SHIFT_TAILS = ["_x", "x", ".tab", "1", "_vl", "_loop", "_", ".", "2x", "L", "lsl"]
+
+
+def g_shift_name(rng):
+    """a label name that begins with a shift/extend operator word (either case): `lsl_x`, `LSLx`, `ror.tab`,
+    `sxtw1`, `mul_vl`, `mul`, ... -- behind a register a grammar without word boundary reads the
+    operator and drops the rest (finding a64-shiftop-prefix-label)"""
+    w = rng.choice(SHIFT_WORDS)
+    v = rng.random()
+    if v < 0.2:
+        w = w.upper()
+    elif v < 0.3:
+        w = w[0].upper() + w[1:]
+    r = rng.random()
+    if r < 0.7:
+        tail = rng.choice(_SHIFT_TAILS)
+    elif r < 0.75 and w.lower() == "mul":
+        tail = ""
+    else:
+        tail = "".join(rng.choice(_ID_REST) for _ in range(rng.randrange(1, 6)))
+    return w + tail
+
+
 def g_name(rng):
     while True:
         r = rng.random()
-        if r < 0.4:
+        if r < 0.12:
+            name = g_shift_name(rng)
+        elif r < 0.46:
             name = rng.choice([".L", ".LBB", "..B", "loop", "main", "_foo", "kernel.", "a"]) + \
                 "".join(rng.choice("0123456789_.") for _ in range(rng.randrange(0, 4)))
         else:
@@ -189,6 +217,53 @@ def g_ident(rng):
         off = rng.randrange(0, 4096)
     return {"k": "id", "name": g_name(rng), "reloc": reloc, "off": off,
             "offhex": rng.random() < 0.3, "hash": reloc is not None and rng.random() < 0.5}
+
+
+def shift_name_sweep():
+    """deterministic: every shift/extend operator word x a few tails as a label operand directly behind
+    each kind of operand that has an optional shift tail or precedes `, shift_op` in the grammar (register
+    kinds, immediate, identifier), in the second and in a later slot, lower and upper case"""
+    def ident(name):
+        return {"k": "id", "name": name, "reloc": None, "off": None, "offhex": False, "hash": False}
+    before = [
+        {"k": "sc", "p": "x", "n": 1, "up": False},
+        {"k": "sc", "p": "w", "n": 30, "up": True},
+        {"k": "sp", "t": "sp"},
+        {"k": "zr", "t": "XZR"},
+        {"k": "vec", "p": "v", "n": 3, "lanes": "4", "shape": "s", "idx": None, "up": False},
+        {"k": "imm", "v": 16, "neg0": False, "hex": False, "hash": True, "hexup": False},
+        {"k": "imm", "v": 255, "neg0": False, "hex": True, "hash": False, "hexup": False},
+        ident(".L4"),
+    ]
+    out = []
+    for w in SHIFT_WORDS:
+        for tail in ("_loop", "x", ".tab", "1", "_vl"):
+            for up in (False, True):
+                name = (w.upper() if up else w) + tail
+                if not ident_ok(name):
+                    continue
+                for bi, b in enumerate(before):
+                    if up and bi % 2:
+                        continue
+                    ops = [dict(b), ident(name)] if b["k"] != "id" and b["k"] != "imm" else \
+                        [{"k": "sc", "p": "x", "n": 0, "up": False}, dict(b), ident(name)]
+                    out.append({"mn": "cbz" if len(ops) == 2 else "op", "ops": ops, "comment": None})
+        out.append({"mn": "adr", "ops": [{"k": "sc", "p": "x", "n": 2, "up": False}, ident(w + "_table"),
+                                          {"k": "sc", "p": "x", "n": 3, "up": False}, ident(w.upper() + "9")], "comment": ["c"]})
+    out.append({"mn": "b", "ops": [{"k": "sc", "p": "x", "n": 2, "up": False}, ident("mul")], "comment": ["vl"]})
+    return out
+
+
+def shift_named(ast):
+    """number of label operands of the line whose name begins with a shift/extend operator word and that
+    stand directly behind a register (where the register's optional shift tail is tried on them)"""
+    n = 0
+    ops = ast["ops"]
+    for a, b in zip(ops, ops[1:]):
+        if b["k"] == "id" and not b["hash"] and b["reloc"] is None and a["k"] in ("sc", "sp", "zr", "vec", "pred", "list", "range") \
+                and any(b["name"].lower().startswith(w) for w in SHIFT_WORDS):
+            n += 1
+    return n
 
 
 def g_prf(rng):
@@ -432,9 +507,10 @@ def gap(rng, kind, style):
     return "".join(rng.choice(" \t") if rng.random() < 0.9 else rng.choice("  \t") for _ in range(n))
 
 
-def layout(rng, ps):
+def layout(rng, ps, style=None):
     """gaps for a piece list: one white-space string per piece, plus the trailing one"""
-    style = rng.choice([0, 1, 2, 2, 2])
+    if style is None:
+        style = rng.choice([0, 1, 2, 2, 2])
     gaps = [gap(rng, kind, style) for _, kind in ps]
     gaps.append(gap(rng, 1, style) if style == 2 else "")
     return gaps
@@ -449,9 +525,9 @@ def join(ps, gaps):
     return "".join(out)
 
 
-def render(rng, ast):
+def render(rng, ast, style=None):
     ps = line_pieces(ast)
-    gaps = layout(rng, ps)
+    gaps = layout(rng, ps, style)
     return join(ps, gaps), gaps
 
 
